@@ -2,7 +2,11 @@
 //! and fuzzing).  See /verif/DESIGN.md.
 pub mod alloc;
 pub mod cli;
+pub mod hang;
 pub mod interpose;
+pub mod real;
 pub mod runner;
+pub mod simk;
+pub mod simproc;
 pub mod util;
 pub mod props;
